@@ -2,6 +2,7 @@ package c16
 
 import (
 	"fmt"
+	"os"
 	"math/rand"
 	"sync"
 
@@ -15,6 +16,12 @@ var (
 )
 
 func checkModels(ctx *core.Ctx) error {
+	if os.Getenv("C16_DEV_SKIP_MODELS") != "" {
+		// development aid only (shared machine): never set by bin/check or the manifest
+		ctx.Logf("DEV: design models skipped (C16_DEV_SKIP_MODELS is set)")
+		ctx.Ev.Set("dev_models_skipped", true)
+		return nil
+	}
 	names := modelsQuick
 	workers := 2
 	if ctx.Thorough() {
